@@ -58,6 +58,9 @@ func (c *C14) variants() map[string][]c14Variant {
 		{"sender(0x-prefixed,other)", "minter", sth(func(e *mhubtypes.SendToHubEvent) { e.Sender = s2 })},
 		{"recipient", "minter", sth(func(e *mhubtypes.SendToHubEvent) { e.CosmosReceiver = u2 })},
 		{"height", "minter", sth(func(e *mhubtypes.SendToHubEvent) { e.ExternalHeight = 101 })},
+		{"height(2^64-100)", "minter", sth(func(e *mhubtypes.SendToHubEvent) { e.ExternalHeight = ^uint64(0) - 99 })}, // the two's complement mirror of the base height 100
+		{"height(+2^32)", "minter", sth(func(e *mhubtypes.SendToHubEvent) { e.ExternalHeight = 100 + 1<<32 })},
+		{"height(+2^63)", "minter", sth(func(e *mhubtypes.SendToHubEvent) { e.ExternalHeight = 100 + 1<<63 })},
 		{"txhash", "minter", sth(func(e *mhubtypes.SendToHubEvent) { e.TxHash = "0xbb" })},
 		// the value nothing and the text "0" (= the byte 48): amount 0 / 48
 		{"amount(zero)", "minter", sth(func(e *mhubtypes.SendToHubEvent) { e.Amount = sdk.NewInt(0) })},
@@ -97,6 +100,9 @@ func (c *C14) variants() map[string][]c14Variant {
 			e.ExternalReceiver = "0x" + hex.EncodeToString(hub.User("u1").Bytes())
 		})},
 		{"height", "minter", ttc(func(e *mhubtypes.TransferToChainEvent) { e.ExternalHeight = 101 })},
+		{"height(2^64-100)", "minter", ttc(func(e *mhubtypes.TransferToChainEvent) { e.ExternalHeight = ^uint64(0) - 99 })}, // the two's complement mirror of the base height 100
+		{"height(+2^32)", "minter", ttc(func(e *mhubtypes.TransferToChainEvent) { e.ExternalHeight = 100 + 1<<32 })},
+		{"height(+2^63)", "minter", ttc(func(e *mhubtypes.TransferToChainEvent) { e.ExternalHeight = 100 + 1<<63 })},
 		{"txhash", "minter", ttc(func(e *mhubtypes.TransferToChainEvent) { e.TxHash = "0xbb" })},
 		// the mirror value of the fee (nothing in Validate refuses a negative fee)
 		{"fee(negative mirror)", "minter", ttc(func(e *mhubtypes.TransferToChainEvent) { e.Fee = e.Fee.Neg() })},
@@ -130,6 +136,9 @@ func (c *C14) variants() map[string][]c14Variant {
 		{"asset", "ethereum", bee(func(e *mhubtypes.BatchExecutedEvent) { e.ExternalCoinId = EthEth })},
 		{"batchnonce", "ethereum", bee(func(e *mhubtypes.BatchExecutedEvent) { e.BatchNonce = 2 })},
 		{"height", "ethereum", bee(func(e *mhubtypes.BatchExecutedEvent) { e.ExternalHeight = 101 })},
+		{"height(2^64-100)", "ethereum", bee(func(e *mhubtypes.BatchExecutedEvent) { e.ExternalHeight = ^uint64(0) - 99 })}, // the two's complement mirror of the base height 100
+		{"height(+2^32)", "ethereum", bee(func(e *mhubtypes.BatchExecutedEvent) { e.ExternalHeight = 100 + 1<<32 })},
+		{"height(+2^63)", "ethereum", bee(func(e *mhubtypes.BatchExecutedEvent) { e.ExternalHeight = 100 + 1<<63 })},
 		{"txhash", "ethereum", bee(func(e *mhubtypes.BatchExecutedEvent) { e.TxHash = "0xbb" })},
 		{"feepaid", "ethereum", bee(func(e *mhubtypes.BatchExecutedEvent) { e.FeePaid = sdk.NewInt(5_000_000) })},
 		{"feepayer", "ethereum", bee(func(e *mhubtypes.BatchExecutedEvent) { e.FeePayer = r2 })},
@@ -162,6 +171,9 @@ func (c *C14) variants() map[string][]c14Variant {
 		{"scope", "ethereum", cce(func(e *mhubtypes.ContractCallExecutedEvent) { e.InvalidationScope = []byte("ac") })},
 		{"invalidationnonce", "ethereum", cce(func(e *mhubtypes.ContractCallExecutedEvent) { e.InvalidationNonce = 2 })},
 		{"height", "ethereum", cce(func(e *mhubtypes.ContractCallExecutedEvent) { e.ExternalHeight = 101 })},
+		{"height(2^64-100)", "ethereum", cce(func(e *mhubtypes.ContractCallExecutedEvent) { e.ExternalHeight = ^uint64(0) - 99 })}, // the two's complement mirror of the base height 100
+		{"height(+2^32)", "ethereum", cce(func(e *mhubtypes.ContractCallExecutedEvent) { e.ExternalHeight = 100 + 1<<32 })},
+		{"height(+2^63)", "ethereum", cce(func(e *mhubtypes.ContractCallExecutedEvent) { e.ExternalHeight = 100 + 1<<63 })},
 		{"txhash", "ethereum", cce(func(e *mhubtypes.ContractCallExecutedEvent) { e.TxHash = "0xbb" })},
 	}
 	// ---- SignerSetTxExecutedEvent
@@ -184,6 +196,9 @@ func (c *C14) variants() map[string][]c14Variant {
 		{"nonce", "ethereum", sse(func(e *mhubtypes.SignerSetTxExecutedEvent) { e.EventNonce = 8 })},
 		{"signersetnonce", "ethereum", sse(func(e *mhubtypes.SignerSetTxExecutedEvent) { e.SignerSetTxNonce = 2 })},
 		{"height", "ethereum", sse(func(e *mhubtypes.SignerSetTxExecutedEvent) { e.ExternalHeight = 101 })},
+		{"height(2^64-100)", "ethereum", sse(func(e *mhubtypes.SignerSetTxExecutedEvent) { e.ExternalHeight = ^uint64(0) - 99 })}, // the two's complement mirror of the base height 100
+		{"height(+2^32)", "ethereum", sse(func(e *mhubtypes.SignerSetTxExecutedEvent) { e.ExternalHeight = 100 + 1<<32 })},
+		{"height(+2^63)", "ethereum", sse(func(e *mhubtypes.SignerSetTxExecutedEvent) { e.ExternalHeight = 100 + 1<<63 })},
 		{"members(power)", "ethereum", sse(func(e *mhubtypes.SignerSetTxExecutedEvent) { e.Members = m2 })},
 		{"members(count)", "ethereum", sse(func(e *mhubtypes.SignerSetTxExecutedEvent) { e.Members = m3 })},
 		{"members(one repeated)", "ethereum", sse(func(e *mhubtypes.SignerSetTxExecutedEvent) { e.Members = m4 })},
@@ -396,7 +411,9 @@ func (c *C14) effect(in *hub.Instance, pre *hub.Snapshot, v c14Variant) string {
 	if p == nil && err == nil {
 		write()
 	}
-	return fmt.Sprintf("%s|err=%v|panic=%v", in.Snapshot().StoreDigest(), err, p)
+	// ... and what the tally itself takes from the accepted event: its nonce becomes the chain's last observed event
+	// nonce, its external height the chain's last observed height (batch timeouts are measured against it)
+	return fmt.Sprintf("%s|err=%v|panic=%v|nonce=%d|height=%d", in.Snapshot().StoreDigest(), err, p, ev.GetEventNonce(), ev.GetExternalHeight())
 }
 
 type c14Result struct {
